@@ -59,7 +59,37 @@ def check(P: Project, R: Report) -> None:
         for n in walk_local(node):
             if isinstance(n, ast.Attribute) and isinstance(n.value, ast.Name) and n.value.id == msg_p and isinstance(n.ctx, ast.Load):
                 tags.add("AttributeError")
+        # a function of the package called by the dispatcher (a context object built from the message, a metrics hook, …)
+        # raises into it unless nothing in that function can raise
+        hv_ = tuple(h.name for h in an.handler_stack if h.name)
+        for c in calls_in_order(node):
+            if envelope_call(P, hm, c) is not None:
+                continue
+            g = P.resolve_call(hm, c)
+            if isinstance(g, FuncInfo) and g is not hm and g.name not in helpers_names and g.module.name.startswith("chuk_mcp.") and not _abstract(g) and not contained(P, g):
+                tags.add(ANY_EXC)
+            elif g is None and isinstance(c.func, ast.Attribute) and not is_benign_call(c, hv_):
+                # a method called on a value of unknown shape (`x.get(...)` on something that need not be a mapping)
+                recv = c.func.value
+                on_self_dict = isinstance(recv, ast.Attribute) and isinstance(recv.value, ast.Name) and recv.value.id == "self" and recv.attr in self_dicts
+                if not (on_self_dict or is_mapping_get(c, maps_) or is_mapping_get_here(c, st)) and not (isinstance(recv, ast.Name) and is_registry_value(st.term(recv.id) or recv.id, an)):
+                    tags.add(ANY_EXC)
         return tags
+
+    from ..paths import is_benign_call, is_mapping_get, is_mapping_get_here, mapping_names
+
+    maps_ = mapping_names(hm.node)
+    init_ = P.methods(ph).get("__init__")
+    self_dicts = {t.attr for s_ in (walk_local(init_.node) if init_ is not None else []) if isinstance(s_, (ast.Assign, ast.AnnAssign)) and isinstance(getattr(s_, "value", None), ast.Dict)
+                  for t in (s_.targets if isinstance(s_, ast.Assign) else [s_.target]) if isinstance(t, ast.Attribute)}
+
+    def _abstract(g) -> bool:
+        body = [x for x in g.node.body if not (isinstance(x, ast.Expr) and isinstance(x.value, ast.Constant))]
+        return all(isinstance(x, (ast.Pass, ast.Raise)) or (isinstance(x, ast.Expr) and isinstance(x.value, ast.Constant)) for x in body)
+
+    from ..summaries import contained
+
+    helpers_names = {f.name for f in P.methods(ph).values() if f is not hm and any(isinstance(r, ast.Return) and isinstance(r.value, ast.Tuple) for r in walk_local(f.node))} | {"create_error_response", "create_response"}
 
     # reply helpers: other methods of the class that return (envelope-or-None, session) for an id they are given
     helpers = {}
